@@ -252,3 +252,14 @@ Lemma het_regression :
   serials_of (ingestG py_float_ok (fun _ => true) wtab false w_het) = [1; 2; 3]%Z /\
   serials_of (ingestG py_float_ok (fun _ => false) wtab false w_het) = [1; 2; 3]%Z.
 Proof. split; vm_compute; reflexivity. Qed.
+
+(* ---- regression: a UTF-8 byte order mark in front of the first record (was C07-F9) *)
+
+Definition w_bom_text : string :=
+  "ATOM      1  N   ALA A   1      11.000  12.000  13.000  1.00  0.00           N" ++ nl ++
+  "ATOM      2  CA  ALA A   1      12.000  12.000  13.000  1.00  0.00           C" ++ nl.
+
+Lemma bom_regression :
+  serials_of (ingest py_float_ok wtab false (chunks_of_bytes w_bom_text)) = [1; 2]%Z /\
+  serials_of (ingest py_float_ok wtab false (chunks_of_bytes (bom_bytes ++ w_bom_text))) = [1; 2]%Z.
+Proof. split; vm_compute; reflexivity. Qed.
